@@ -18,6 +18,7 @@ both values.
 import CaddyModel.C19.Lemmas
 import CaddyModel.C19.ClientAuth
 import CaddyModel.C19.Caddyfile
+import CaddyModel.Gen.Glue
 
 namespace CaddyModel.C19
 
@@ -444,6 +445,32 @@ theorem strict_default_iff_some_policy_requests_cert (pcs : List (Policy × Opti
   · rintro ⟨x, hx, ha⟩
     obtain ⟨h1, h2⟩ := hwf x hx
     exact Or.inr ⟨rfl, x.1, List.mem_map.mpr ⟨x, hx, rfl⟩, h1 ▸ (active_iff_requests_client_cert _ _ h2).mpr ha⟩
+
+/-! ## E2. the order of App.Provision, tied to the source
+
+`active_iff_requests_client_cert` is about `Active()` asked BEFORE the policies are provisioned
+(`active_after_provision_full_fails` shows it is wrong afterwards), and `serve` assumes the
+enforcement handler wraps the primary route of a server whose strict flag is already decided.
+Both are facts about statement order in `(*App).Provision`; `Gen.httpProvisionOrder` is
+regenerated from modules/caddyhttp/app.go on every run, so moving the strict-default block
+behind either call breaks this theorem. -/
+
+def posOf (a : String) : List String → Option Nat
+  | [] => none
+  | x :: xs => if x == a then some 0 else (posOf a xs).map (· + 1)
+
+/-- both are called, `a` first -/
+def calledBefore (a b : String) (l : List String) : Bool :=
+  match posOf a l, posOf b l with
+  | some i, some j => decide (i < j)
+  | _, _ => false
+
+theorem strict_default_order_matches_source :
+    calledBefore "hasTLSClientAuth" "TLSConnPolicies.Provision" Gen.httpProvisionOrder = true ∧
+    calledBefore "hasTLSClientAuth" "wrapPrimaryRoute" Gen.httpProvisionOrder = true := by decide
+
+example : calledBefore "b" "a" ["a", "b"] = false ∧ calledBefore "a" "c" ["a", "b"] = false ∧
+    calledBefore "a" "b" ["a", "b"] = true := by decide
 
 /-! ## F. Caddyfile glue: `tls { client_auth … }` and `servers { strict_sni_host … }` -/
 
